@@ -491,9 +491,15 @@ func c10Run(ci any) (out Outcome) {
 			}
 		}
 		if total > eff-2 {
+			// debug chunks concatenating to the line; a trailing CR may come as a chunk of its own
+			// (bufio holds it back in case a LF follows) or be dropped as part of CRLF
+			s2 := st
+			if s2.inPanic {
+				s2.unknown = true // the statement is silent on whether a trace continues after an over-long line
+			}
 			var acc []byte
 			rj := ri
-			for len(acc) < len(line) || rj == ri {
+			for len(acc) < len(raw) || rj == ri {
 				if rj >= len(recs) {
 					fail(i, "records for over-long stderr line %d end early: have %q of %q", i, clip(acc), clip(line))
 					return false
@@ -505,22 +511,21 @@ func c10Run(ci any) (out Outcome) {
 					return false
 				}
 				acc = append(acc, r.Msg...)
+				if bytes.Equal(acc, line) || bytes.Equal(acc, raw) {
+					if match(i+1, rj, s2) {
+						return true
+					}
+					// an empty closing chunk may follow
+					if rj < len(recs) && recs[rj].Msg == "" && recs[rj].Level == hclog.Debug && match(i+1, rj+1, s2) {
+						return true
+					}
+				}
+				if !bytes.HasPrefix(raw, acc) {
+					break
+				}
 			}
-			if !bytes.Equal(acc, line) && !bytes.Equal(acc, raw) {
-				fail(i, "records of over-long stderr line %d concatenate to %q, the line is %q", i, clip(acc), clip(line))
-				return false
-			}
-			s2 := st
-			if s2.inPanic {
-				s2.unknown = true // the statement is silent on whether a trace continues after an over-long line
-			}
-			if match(i+1, rj, s2) {
-				return true
-			}
-			// an empty closing chunk may follow
-			if rj < len(recs) && recs[rj].Msg == "" && recs[rj].Level == hclog.Debug && match(i+1, rj+1, s2) {
-				return true
-			}
+			fail(i, "records of over-long stderr line %d concatenate to %q, the line is %q", i, clip(acc), clip(raw))
+			return false
 		}
 		return false
 	}
